@@ -65,6 +65,7 @@ C_DRIVER = r'''#include <stdio.h>
 #include "DvW.h"
 ''' + COMMON + r'''
 int main(int argc, char** argv) {
+    setvbuf(stdout, NULL, _IOLBF, 0);
     FILE* f = fopen(argv[1], "r");
     static char mode[8], hex[1 << 16], ls[1 << 14];
     unsigned long p1, p2;
@@ -110,6 +111,7 @@ CPP_DRIVER = r'''#include <cstdio>
 #include "DvW.hpp"
 ''' + COMMON + r'''
 int main(int argc, char** argv) {
+    setvbuf(stdout, NULL, _IOLBF, 0);
     FILE* f = fopen(argv[1], "r");
     static char mode[8], hex[1 << 16], ls[1 << 14];
     unsigned long p1, p2;
